@@ -58,6 +58,65 @@ TOL_P = 1e-10
 TOL_P_SINGLE = 1e-9
 TOL_Q = 1e-11
 SUSPECT = 1e-7  # scipy's expm is audited to 1e-12; larger differences need no second opinion
+EPS = 2.220446049250313e-16
+EIGEN_MODELS = ("HKY", "GTR", "GeneralSymmetric", "MG94")  # p_t through the symmetrised eigen-decomposition
+C_COND = 2000.0  # measured on the unchanged tree: error <= 391 eps cond(D) while t|Q| < 1e5 (9000 skewed cases)
+C_TQ = 20.0  # first-order effect of rounding the entries of Q on expm(tQ): <= eps t |Q|_inf (measured <= 3.2)
+SKEW_RATIO = 2.0e4  # frequencies with max/min above this are "skewed" (the ordinary generator stays <= 1e4)
+TQ_LARGE = 1.0e5
+
+
+def tol_p(model, pi, tq, single):
+    """tolerance on entries of P(t) for one slice and one t, derived from conditioning:
+    * eigen route (HKY, GTR, general symmetric, MG94): P = D^-1 V exp(Et) V' D with D = diag(sqrt(pi));
+      the back-transformation amplifies rounding by cond(D) = sqrt(max pi / min pi)  ->  C_COND eps cond(D)
+      (1e-10 up to a frequency ratio of 5e4; 4.4e-8 at a ratio of 1e10);
+    * non-symmetric model with skewed frequencies: rounding of the entries of Q alone moves
+      expm(tQ) by up to eps t |Q|_inf, and normalisation by a dominant frequency makes t |Q| huge there
+      ->  C_TQ eps t |Q|_inf;
+    never below the 1e-10 (1e-9 single matrix) of DESIGN C04-B"""
+    base = TOL_P_SINGLE if single else TOL_P
+    pi = np.asarray(pi, dtype=float)
+    ratio = float(np.max(pi) / np.min(pi))
+    if model in EIGEN_MODELS:
+        return max(base, C_COND * EPS * math.sqrt(ratio))
+    if model == "GeneralNonSymmetric" and ratio > SKEW_RATIO:
+        return max(base, C_TQ * EPS * tq)
+    return base
+
+
+def bands(c):
+    """classification of a case by conditioning (tags, known-finding predicates):
+    pi_band: 'regular' / 'ratio>2e4' by max/min frequency over the slices;
+    tq_band: '<1e5' / '>=1e5' by the largest t |Qn|_inf over slices and branch lengths (oracle's Qn)"""
+    states = [c] if "rounds" not in c else _history_states(c)
+    ratio, tq = 1.0, 0.0
+    for s in states:
+        if s["model"] in PARAM_FREE:
+            continue
+        fr = np.asarray(s["freqs"], dtype=float)
+        ratio = max(ratio, float(np.max(fr.max(axis=1) / fr.min(axis=1))))
+        _, tper = times_of(s)
+        tmax = np.maximum(tper.max(axis=1), s["s"][0] + s["s"][1])
+        for i in range(_n(s["ss"])):
+            Qn, _ = rm.q_normalised(s["model"], **oracle_params(s, i))
+            tq = max(tq, float(tmax[i] * np.max(np.sum(np.abs(Qn), axis=1))))
+    return {"pi_band": "ratio>2e4" if ratio > SKEW_RATIO else "regular", "tq_band": ">=1e5" if tq >= TQ_LARGE else "<1e5"}
+
+
+def _history_states(c):
+    """the successive (parameter values, branch lengths) of a history case, evaluated or not"""
+    cur = {k: v for k, v in c.items() if k != "rounds"}
+    out = [cur]
+    for u in c["rounds"]:
+        cur = dict(cur, t=list(u["t"]))
+        if "rates" in u:
+            cols = u.get("cols")
+            cur["rates"] = [[(u["rates"][i][j] if (cols is None or j in cols) else v) for j, v in enumerate(row)] for i, row in enumerate(cur["rates"])]
+        if "freqs" in u:
+            cur["freqs"] = [list(x) for x in u["freqs"]]
+        out.append(cur)
+    return out
 AA = "torchtree.evolution.substitution_model.amino_acid."
 PARAM_FREE = ("JC69", "GeneralJC69", "LG", "WAG")
 REVERSIBLE = ("JC69", "HKY", "GTR", "GeneralJC69", "GeneralSymmetric", "LG", "WAG", "MG94")
@@ -377,7 +436,7 @@ def _audit(Qn, pi, t, reversible):
     """harness self-audit: scipy expm against mpmath; raises (harness error) if they differ"""
     ref = rm.expm_mp(np.asarray(Qn) * t)
     err = float(np.max(np.abs(ref - rm.p_t(Qn, t))))
-    if not err <= 1e-12:
+    if not err <= max(1e-12, C_TQ * EPS * t * float(np.max(np.sum(np.abs(Qn), axis=1)))):
         raise AssertionError("oracle audit: scipy expm differs from mpmath by %g (t=%r, Q=%r)" % (err, t, np.asarray(Qn).tolist()))
 
 
@@ -424,7 +483,6 @@ def _check_state(c, m, res, key, out):
     tfull, tper = times_of(c)
     nt = tper.shape[1]
     single = model == "GeneralNonSymmetric" and tfull.size == 1
-    tolP = TOL_P_SINGLE if single else TOL_P
 
     # ---- the model's own rate matrix and frequencies
     Qm = arr(m.q())
@@ -527,6 +585,7 @@ def _check_state(c, m, res, key, out):
         # ---------------- (c) P(t) = expm(t Qn), (d) stochastic, P(0) = I, (e) reversibility
         if k <= 6 and h64(key) % 8 == 0 and i == 0:
             _audit(Qn, pi, float(tper[i, 0]), model in REVERSIBLE)
+        qnorm = float(np.max(np.sum(np.abs(Qn), axis=1)))
         for j in range(nt):
             t = float(tper[i, j])
             Pij = Ps[i, j]
@@ -534,14 +593,16 @@ def _check_state(c, m, res, key, out):
             ref = rm.p_t(Qn, t)
             err = maxabs(Pij, ref)
             worst = max(worst, err)
-            if tolP < err <= SUSPECT:  # too small to be a gross error: let multiple precision decide
+            tolP = tol_p(model, pi, t * qnorm, single)
+            d2["tolerance"] = tolP
+            if tolP < err <= max(SUSPECT, 100 * EPS * t * qnorm):  # too small to be a gross error: let multiple precision decide
                 ref = _reference(Qn, pi, t, model in REVERSIBLE, ref)
                 err = maxabs(Pij, ref)
             if not err <= tolP:
                 return res.fail("mismatch", dict(d2, err=err, p=_mat(Pij), expected=_mat(ref)), tband=_band(t, [1e-4, 1e-1, 10], ["<1e-4", "<1e-1", "<10", ">=10"]))
             if np.max(np.abs(Pij.sum(axis=1) - 1.0)) > tolP or np.min(Pij) < -tolP:
                 return res.fail("not_stochastic", dict(d2, rowsums=Pij.sum(axis=1).tolist(), min=float(np.min(Pij))))
-            if t == 0.0 and maxabs(Pij, np.eye(k)) > 1e-12:
+            if t == 0.0 and maxabs(Pij, np.eye(k)) > max(1e-12, tolP / 200):  # eigen route: (D^-1 V)(V^-1 D), ~ eps cond(D)
                 return res.fail("p0_not_identity", dict(d2, p=_mat(Pij)))
             if model in REVERSIBLE:
                 if np.max(np.abs(pi @ Pij - pi)) > tolP:
@@ -550,15 +611,17 @@ def _check_state(c, m, res, key, out):
                 if np.max(np.abs(F - F.T)) > tolP:
                     return res.fail("detailed_balance", dict(d2, err=float(np.max(np.abs(F - F.T)))))
         # ---------------- (d) semigroup, on torchtree's own matrices
+        tol3 = tol_p(model, pi, (s1 + s2) * qnorm, False)
         e3 = maxabs(Ptri[i, 0] @ Ptri[i, 1], Ptri[i, 2])
-        if not e3 <= 10 * TOL_P:
-            return res.fail("semigroup", dict(d, s=s1, u=s2, err=e3))
+        if not e3 <= 10 * tol3:
+            return res.fail("semigroup", dict(d, s=s1, u=s2, err=e3, tolerance=10 * tol3))
         for j, tv in enumerate((s1, s2, s1 + s2)):
             e = maxabs(Ptri[i, j], rm.p_t(Qn, tv))
-            if TOL_P < e <= SUSPECT:
+            tolj = tol_p(model, pi, tv * qnorm, False)
+            if tolj < e <= max(SUSPECT, 100 * EPS * tv * qnorm):
                 e = maxabs(Ptri[i, j], _reference(Qn, pi, tv, model in REVERSIBLE, rm.p_t(Qn, tv)))
-            if not e <= TOL_P:
-                return res.fail("mismatch", dict(d, t=tv, err=e, what="semigroup triple"), tband=_band(tv, [1e-4, 1e-1, 10], ["<1e-4", "<1e-1", "<10", ">=10"]))
+            if not e <= tolj:
+                return res.fail("mismatch", dict(d, t=tv, err=e, tolerance=tolj, what="semigroup triple"), tband=_band(tv, [1e-4, 1e-1, 10], ["<1e-4", "<1e-1", "<10", ">=10"]))
 
     out.update(Qs=Qs, pis=pis, Ps=Ps, k=k)
     return None
@@ -579,6 +642,7 @@ def _classify(c):
         tags["code"] = c["code"]
     if "mapping" in c:
         tags["mapping"] = "default" if c["mapping"] is None else "given"
+    tags.update(bands(c))
     anypos = bool(np.any(tper > 0))
     nonuni = uneq = True
     if model in PARAM_FREE:
@@ -593,7 +657,7 @@ def _classify(c):
     key = (model, c.get("k"), c.get("code"), c.get("mapping"), c["ss"], c["fbatch"], c["tshape"], c["B"], c["K"],
            _sig(c.get("rates")), _sig(c.get("freqs")), _sig(c["t"]), _sig(c["tfac"]))
     why = "nontrivial" if nontrivial else ("trivial:all-t-zero" if not anypos else ("trivial:uniform-frequencies" if not nonuni else "trivial:equal-rates"))
-    labels = (model, "batch:" + batch, "t:" + c["tshape"], why)
+    labels = (model, "batch:" + batch, "t:" + c["tshape"], why) + (("skewed-frequencies(ratio>2e4)", "skewed:" + model) if tags["pi_band"] != "regular" else ())
     return tags, nontrivial, key, labels
 
 
@@ -608,7 +672,6 @@ def body(c):
     nt = tper.shape[1]
     tags, nontrivial, key, labels = _classify(c)
     single = tags["single_matrix"]
-    tolP = TOL_P_SINGLE if single else TOL_P
     res = Res(nontrivial=nontrivial, key=key, labels=labels, tags=tags)
     out = {}
     if _check_state(c, m, res, key, out) is not None:
@@ -627,11 +690,12 @@ def body(c):
             mi, _ = tt.build(spec_of(c, i))
             ti = tper[i].reshape(c["B"], c["K"])
             Pi = arr(mi.p_t(torch.tensor(ti.tolist())))
-            tol = 1e-9 if (model == "GeneralNonSymmetric" and ti.size == 1) else 1e-11
+            tol = 1e-9 if (model == "GeneralNonSymmetric" and (ti.size == 1 or single)) else 1e-11
+            tol = max(tol, 0.1 * tol_p(model, pis[i], 0.0, False))  # same algorithm on the same numbers
             if Pi.size != nt * k * k:
                 return res.fail("p_shape", {"slice": i, "p": list(Pi.shape), "what": "unbatched rebuild"})
             e = maxabs(Pi.reshape(nt, k, k), Ps[i])
-            if not e <= max(tol, tolP if single else 0.0):
+            if not e <= tol:
                 return res.fail("batch_vs_slice", {"slice": i, "err": e})
             if _relerr(arr(mi.q()), Qs[i]) > 1e-13:
                 return res.fail("batch_vs_slice_q", {"slice": i})
@@ -667,7 +731,7 @@ def body_history(c):
     cur = {k: v for k, v in c.items() if k != "rounds"}
     m, dic = tt.build(spec_of(cur))
     tags, nt0, key0, labels0 = _classify(cur)
-    tags = dict(tags, history=True)
+    tags = dict(tags, history=True, **bands(c))
     rounds = c["rounds"]
     key = (key0, [(u.get("mode"), u.get("cols"), _sig(u.get("rates")), _sig(u.get("freqs")), _sig(u["t"]), u.get("evaluate", True)) for u in rounds])
     res = Res(nontrivial=False, key=key, tags=tags)
@@ -867,6 +931,8 @@ def _pretags(c):
         t["batch"] = "none" if not c["ss"] else ("full" if c["fbatch"] else "partial")
     if "tshape" in c:
         t["tshape"] = c["tshape"]
+    if "ss" in c and "t" in c:
+        t.update(bands(c))
     return t
 
 
